@@ -370,13 +370,11 @@ def r03_5(rep, mod):
               'returns the resolver\'s mro; the legacy order only under '
               'use_legacy (returns %s)' % vals, construct='result', node=f)
     imod = rep.repo.module('interface.py')
+    from . import specsem
     from .C02 import r02_6
     r02_6(rep, imod, rule='R03.5')
-    ch = find_def(imod, 'Specification.changed')
-    ok = bool(find_all(ch, 'self.__iro__ = tuple([$x for $x in $a if isinstance($x, InterfaceClass)])', 'exec'))
-    rep.check('R03.5', 'Specification.changed', ok,
-              '__iro__ is __sro__ restricted to interfaces, same order',
-              construct='iro', node=ch)
+    specsem.calculate_sro(rep, imod, 'R03.5')
+    specsem.changed_recompute(rep, imod, 'R03.5', only=('iro',))
 
 
 def run(rep):
